@@ -1,1 +1,182 @@
-"""rules for c18 (under construction)"""
+"""C18 - finite-difference matrices: assembly clause only (positional pairing, wrap diagonals, parallel sort, Kronecker arity)."""
+
+import ast
+import re
+
+from ..cfg import FuncCFG, walk_no_nested
+from ..model import AnalysisError
+from ..norm import Normalizer
+from ..runner import rule
+from .. import facts
+
+PH = 'pySDC/helpers/problem_helper.py'
+
+
+def _value_as_index_sites(fn):
+    """contradiction rule: a variable bound by `for v in X` is used as a subscript of X (values used as positions).
+
+    Also fires when v subscripts an array documented as sorted in parallel with X (same function, both returned by one call)."""
+    out = []
+    for st in walk_no_nested(fn):
+        if not isinstance(st, ast.For) or not isinstance(st.target, ast.Name) or not isinstance(st.iter, ast.Name):
+            continue
+        v, X = st.target.id, st.iter.id
+        for sub in ast.walk(st):
+            if isinstance(sub, ast.Subscript) and isinstance(sub.value, ast.Name) and isinstance(sub.slice, ast.Name) and sub.slice.id == v and sub.value.id == X:
+                out.append((st, ast.unparse(sub)))
+    return out
+
+
+@rule('C18', 'C18.R1', 'positional pairing: weight k is placed on the diagonal of offset k (loop over positions, same position for both arrays)', floor=2)
+def r1(ctx, R):
+    repo = ctx.repo
+    fn = repo.func(PH, 'get_finite_difference_matrix')
+    w = f'{PH}:get_finite_difference_matrix'
+    R.fn(w)
+    N = Normalizer(fn, inline_scalars=False)
+    diag = [c for c in N.contribs if c.op == '+=' and c.terms and any('sp.eye(size, k=' in x for _, f in c.terms for x in f) and any("bc[0] == 'periodic'" in g for g in c.guards)]
+    if len(diag) < 1:
+        raise AnalysisError(f'{w}: periodic diagonal placement not recognised ({len(diag)} contributions)')
+    for c in diag:
+        (sgn, fac), = c.terms if len(c.terms) == 1 else [(0, ())]
+        cf = [x for x in fac if x.startswith('coeff[')]
+        ey = [x for x in fac if x.startswith('sp.eye(')]
+        ok = sgn == 1 and len(cf) == 1 and len(ey) == 1
+        idx = None
+        if ok:
+            idx = cf[0][len('coeff['):-1]
+            m = re.fullmatch(r'sp\.eye\(size, k=(.*)\)', ey[0])
+            k = m.group(1) if m else ''
+            ok = f'steps[{idx}]' in k
+            # the index must range over positions
+            lp = c.loops[-1] if c.loops else None
+            positional = lp is not None and (lp.kind == 'range' and str(lp.hi) in ('len(steps)', 'len(coeff)', 'n') or lp.kind == 'iter' and (lp.it.startswith('zip(') or lp.it.startswith('enumerate(')))
+            ok = ok and positional
+        R.check(ok, f'get_finite_difference_matrix :: periodic diagonal `{c.describe()[:70]}`', w, 'coeff[p] * eye(k=steps[p] (+wrap)) for p over positions 0..len(steps)-1', {'index': idx, 'loop': repr(c.loops[-1]) if c.loops else None})
+    # general contradiction rule over the whole helper module (expected count 0)
+    m = repo.module(PH)
+    hits = []
+    for name, f in m.functions.items():
+        for st, sub in _value_as_index_sites(f):
+            hits.append((name, sub))
+    # positive control
+    pc = ast.parse('def f(steps, coeff):\n    for i in steps:\n        g(steps[i])\n').body[0]
+    if not _value_as_index_sites(pc):
+        raise AnalysisError('C18.R1 positive control (values used as positions) not detected')
+    R.check(not hits, 'problem_helper :: no loop variable bound by `for v in X` is used as a subscript of X', PH, 'values are not positions', hits)
+
+
+@rule('C18', 'C18.R2', 'wrap diagonals: positive offset s also fills diagonal s - size, negative offset s also fills s + size', floor=2)
+def r2(ctx, R):
+    repo = ctx.repo
+    fn = repo.func(PH, 'get_finite_difference_matrix')
+    w = f'{PH}:get_finite_difference_matrix'
+    R.fn(w)
+    N = Normalizer(fn, inline_scalars=False)
+    wr = [c for c in N.contribs if c.op == '+=' and c.terms and any('sp.eye(size, k=' in x for _, f in c.terms for x in f) and len(c.guards) >= 2]
+    got = {}
+    for c in wr:
+        ey = [x for _, f in c.terms for x in f if x.startswith('sp.eye(')][0]
+        k = re.fullmatch(r'sp\.eye\(size, k=(.*)\)', ey).group(1)
+        got[c.guards[-1]] = str(N.affine(ast.parse(k, mode='eval').body))
+    idx = None
+    for g in got:
+        m = re.match(r'steps\[(.+)\] [<>] 0', g)
+        if m:
+            idx = m.group(1)
+    want = {f'steps[{idx}] > 0': f'-size+steps[{idx}]', f'steps[{idx}] < 0': f'size+steps[{idx}]'}
+    R.check(got == want, 'get_finite_difference_matrix :: periodic wrap-around diagonals', w, want, got)
+    R.check(len(wr) == 2, 'get_finite_difference_matrix :: exactly one wrap diagonal per sign', w, 2, len(wr))
+
+
+@rule('C18', 'C18.R3', 'weights and offsets are sorted in parallel: coeff reordered with argsort(steps) BEFORE steps is sorted', floor=2)
+def r3(ctx, R):
+    repo = ctx.repo
+    fn = repo.func(PH, 'get_finite_difference_stencil')
+    w = f'{PH}:get_finite_difference_stencil'
+    R.fn(w)
+    cfg = FuncCFG(fn)
+    c_sort = [n for n, s in cfg.stmt_of.items() if isinstance(s, ast.Assign) and ast.unparse(s.targets[0]) == 'coeff' and ast.unparse(s.value) == 'coeff[np.argsort(steps)]']
+    s_sort = [n for n, s in cfg.stmt_of.items() if isinstance(s, ast.Assign) and ast.unparse(s.targets[0]) == 'steps' and 'sort' in ast.unparse(s.value)]
+    ok = len(c_sort) == 1 and len(s_sort) == 1 and cfg.dominates(c_sort[0], s_sort[0]) and c_sort[0] != s_sort[0]
+    R.check(ok, 'get_finite_difference_stencil :: coeff = coeff[argsort(steps)] precedes steps = sort(steps)', w, 'permutation taken from the UNSORTED offsets', f'{len(c_sort)} coefficient permutation(s), {len(s_sort)} offset sort(s)')
+    ret = [s for s in walk_no_nested(fn) if isinstance(s, ast.Return)]
+    R.check(len(ret) == 1 and ast.unparse(ret[0].value) == '(coeff, steps)', 'get_finite_difference_stencil :: returns (coeff, steps) in that order', w, '(coeff, steps)', [ast.unparse(r.value) for r in ret])
+
+
+@rule('C18', 'C18.R4', 'Kronecker sum: dimension d has exactly d terms, A_1d once per term in a distinct position, identities of complementary size', floor=3)
+def r4(ctx, R):
+    repo = ctx.repo
+    fn = repo.func(PH, 'get_finite_difference_matrix')
+    w = f'{PH}:get_finite_difference_matrix'
+    R.fn(w)
+    N = Normalizer(fn, inline_scalars=False)
+    arms = {}
+    for c in N.contribs:
+        if c.target == 'A' and c.op == '=' and c.guards:
+            m = re.search(r'dim == (\d)', c.guards[-1])
+            if m:
+                arms[int(m.group(1))] = c
+    if sorted(arms) != [1, 2, 3]:
+        raise AnalysisError(f'{w}: dim dispatch arms {sorted(arms)} != [1, 2, 3]')
+
+    def flat(node):
+        """kron(a, kron(b, c)) -> [a, b, c] as strings"""
+        if isinstance(node, ast.Call) and ast.unparse(node.func) == 'sp.kron':
+            return flat(node.args[0]) + flat(node.args[1])
+        return [ast.unparse(node)]
+
+    def terms(node):
+        if isinstance(node, ast.BinOp) and isinstance(node.op, ast.Add):
+            return terms(node.left) + terms(node.right)
+        return [node]
+
+    R.check(arms[1].rhs == 'A_1d', 'dim == 1 :: A = A_1d', w, 'A_1d', arms[1].rhs)
+    for d in (2, 3):
+        ts = [flat(t) for t in terms(arms[d].stmt.value)]
+        pos = sorted(t.index('A_1d') for t in ts if t.count('A_1d') == 1)
+        sizes_ok = True
+        for t in ts:
+            # product of identity sizes must be size**(d-1)
+            exps = 0
+            for x in t:
+                if x == 'A_1d':
+                    continue
+                m = re.fullmatch(r'sp\.eye\(size(?:\s*\*\*\s*(\d+))?\)', x)
+                if not m:
+                    sizes_ok = False
+                    break
+                exps += int(m.group(1) or 1)
+            sizes_ok &= exps == d - 1
+        # positions measured in units of `size`
+        def unit_pos(t):
+            p = 0
+            for x in t:
+                if x == 'A_1d':
+                    return p
+                m = re.fullmatch(r'sp\.eye\(size(?:\s*\*\*\s*(\d+))?\)', x)
+                p += int(m.group(1) or 1) if m else 0
+            return None
+        ups = sorted(unit_pos(t) for t in ts)
+        ok = len(ts) == d and all(t.count('A_1d') == 1 for t in ts) and ups == list(range(d)) and sizes_ok
+        R.check(ok, f'dim == {d} :: {d} Kronecker terms, A_1d in {d} distinct tensor positions, identities of total size size**{d - 1}', w, f'positions {list(range(d))}', {'terms': ts, 'positions': ups})
+    ch = [c for c in facts.dispatch_chains(fn) if c['subject'] == 'dim']
+    els = [s for s in walk_no_nested(fn) if isinstance(s, ast.Raise) and 'Dimension' in ast.unparse(s)]
+    R.check(bool(els), 'get_finite_difference_matrix :: other dimensions raise', w, 'raise NotImplementedError', [ast.unparse(e)[:60] for e in els])
+
+
+@rule('C18', 'C18.R5', 'call sites: every library caller passes derivative, order/steps, dx, size, dim and bc by keyword (no positional mix-up) and the grid spacing of the same grid', floor=6)
+def r5(ctx, R):
+    repo = ctx.repo
+    fn = repo.func(PH, 'get_finite_difference_matrix')
+    params = [a.arg for a in fn.args.args]
+    need = {'derivative', 'order', 'dx', 'size', 'dim', 'bc'}
+    if not need <= set(params):
+        raise AnalysisError(f'{PH}:get_finite_difference_matrix lost parameters {sorted(need - set(params))}')
+    for cs in ctx.memo('call_sites', lambda: facts.call_sites(repo)):
+        if cs.name != 'get_finite_difference_matrix' or cs.module.relpath == PH:
+            continue
+        kw = {k.arg for k in cs.call.keywords if k.arg}
+        pos = len(cs.call.args)
+        ok = pos == 0 and need <= kw
+        R.check(ok, f'{cs.qual.split(":")[1]} :: get_finite_difference_matrix(...) passes all geometric arguments by keyword', cs.qual, sorted(need), {'positional': pos, 'keywords': sorted(kw)})
